@@ -489,3 +489,188 @@ Proof.
     [|vm_compute in E; discriminate].
   exists frame, sess'. split; [reflexivity|]. vm_compute in E. inversion E. vm_compute. reflexivity.
 Qed.
+
+(* ------------------------------------------------------------------ field structure *)
+
+Definition tag_okb (t : str) : bool :=
+  match t with
+  | c :: t' => negb (N.eqb c 1) && negb (N.eqb c 61) && soh_free t'
+  | [] => false
+  end.
+
+(* tags are non-empty, SOH-free and do not start with "="; every other piece of text is SOH-free *)
+Definition inputs_fields_ok (bs : str) (m : message) (sess : session) (t : str) : bool :=
+  soh_free bs && soh_free (msg_type m) && soh_free (sender sess) && soh_free (target sess)
+  && soh_free t && container_all tag_okb soh_free (msg_tags m).
+
+Definition fld_okb (f : str) : bool :=
+  match f with
+  | c :: w => negb (N.eqb c 1) && negb (N.eqb c 61) && soh_free w && existsb (N.eqb 61) w
+  | [] => false
+  end.
+
+Lemma soh_free_app a b : soh_free (a ++ b) = soh_free a && soh_free b.
+Proof. apply forallb_app. Qed.
+
+Lemma field_fld_ok t v : tag_okb t = true -> soh_free v = true -> fld_okb (field t v) = true.
+Proof.
+  unfold tag_okb, field. destruct t as [|c t']; [discriminate|]. rewrite !andb_true_iff.
+  intros [[A B] C] D. cbn [app fld_okb]. rewrite A, B. cbn [andb].
+  change (61 :: v) with ([61] ++ v). rewrite !soh_free_app, C, D. cbn [soh_free forallb N.eqb Pos.eqb negb andb].
+  rewrite existsb_app. cbn. now rewrite orb_true_r.
+Qed.
+
+Lemma digits_soh_free ds : forallb ascii_digit ds = true -> soh_free ds = true.
+Proof.
+  unfold soh_free. rewrite !forallb_forall. intros H c Hc. specialize (H c Hc).
+  apply ascii_digit_range in H. apply negb_true_iff. apply N.eqb_neq. lia.
+Qed.
+
+Lemma n_to_dec_soh_free n : soh_free (n_to_dec n) = true.
+Proof. apply digits_soh_free. apply n_to_dec_spec. Qed.
+
+Lemma z_to_dec_soh_free z : soh_free (z_to_dec z) = true.
+Proof.
+  destruct z as [|p|p]; cbn [z_to_dec]; [reflexivity|apply n_to_dec_soh_free|].
+  change (45 :: n_to_dec (N.pos p)) with ([45] ++ n_to_dec (N.pos p)).
+  rewrite soh_free_app, n_to_dec_soh_free. reflexivity.
+Qed.
+
+Lemma scan_value v rest : soh_free v = true ->
+  fields_scan InValue (v ++ 1 :: rest) = fields_scan AtStart rest.
+Proof.
+  induction v as [|c v IH]; [reflexivity|]. cbn [soh_free forallb]. rewrite andb_true_iff.
+  intros [A B]. cbn [app fields_scan]. apply negb_true_iff in A. rewrite A. now apply IH.
+Qed.
+
+Lemma scan_tag w rest : soh_free w = true -> existsb (N.eqb 61) w = true ->
+  fields_scan InTag (w ++ 1 :: rest) = fields_scan AtStart rest.
+Proof.
+  induction w as [|c w IH]; [discriminate|]. cbn [soh_free forallb existsb]. rewrite andb_true_iff.
+  intros [A B] E. cbn [app fields_scan]. apply negb_true_iff in A. rewrite A.
+  destruct (N.eqb c 61) eqn:E61.
+  - now apply scan_value.
+  - rewrite N.eqb_sym, E61 in E. cbn [orb] in E. now apply IH.
+Qed.
+
+Lemma scan_field f rest : fld_okb f = true ->
+  fields_scan AtStart (f ++ 1 :: rest) = fields_scan AtStart rest.
+Proof.
+  unfold fld_okb. destruct f as [|c w]; [discriminate|]. rewrite !andb_true_iff.
+  intros [[[A B] C] D]. cbn [app fields_scan]. apply negb_true_iff in A, B. rewrite A, B. cbn [orb].
+  now apply scan_tag.
+Qed.
+
+(* SOH-terminated concatenation *)
+Definition term (fs : list str) : str := flat_map (fun f => f ++ SOHs) fs.
+
+Lemma term_app a b : term (a ++ b) = term a ++ term b.
+Proof. apply flat_map_app. Qed.
+
+Lemma join_term fs : fs <> [] -> join SOHs fs ++ SOHs = term fs.
+Proof.
+  induction fs as [|f fs IH]; [congruence|]. intros _. destruct fs as [|g fs].
+  - cbn. now rewrite app_nil_r.
+  - rewrite join_cons by discriminate. change (term (f :: g :: fs)) with ((f ++ SOHs) ++ term (g :: fs)).
+    rewrite <- IH by discriminate. now rewrite <- !app_assoc.
+Qed.
+
+Lemma scan_term fs : Forall (fun f => fld_okb f = true) fs -> fields_scan AtStart (term fs) = true.
+Proof.
+  induction 1 as [|f fs Hf _ IH]; [reflexivity|].
+  change (term (f :: fs)) with ((f ++ SOHs) ++ term fs). rewrite <- app_assoc.
+  change (SOHs ++ term fs) with (1 :: term fs). now rewrite scan_field.
+Qed.
+
+Lemma select_seq_dec m sess raw seq s' :
+  select_seq m sess raw = Ok (seq, s') -> exists z, seq = z_to_dec z.
+Proof.
+  unfold select_seq. intros H.
+  repeat match type of H with
+  | (if ?b then _ else _) = _ => destruct b
+  | bind ?r _ = _ => destruct r; cbn [bind] in H
+  | Exc _ = Ok _ => discriminate
+  | Ok (?a, _) = Ok (_, _) => inversion H; subst; eexists; reflexivity
+  end.
+Qed.
+
+(* the frame is the SOH-terminated list of its fields *)
+Lemma encode_fields bs m sess t raw frame sess' :
+  encode bs m sess t raw = Ok (frame, sess') ->
+  exists z rest blen ck,
+    render_body (msg_tags m) = Ok rest /\ ck < 256 /\
+    frame = term ([field T8 bs; field T9 (n_to_dec blen); field T35 (msg_type m)]
+                  ++ [field T49 (sender sess); field T56 (target sess); field T34 (z_to_dec z); field T52 t]
+                  ++ rest ++ [field T10 (fmt03 ck)]).
+Proof.
+  unfold encode. destruct (select_seq m sess raw) as [[seq s']|e] eqn:Es; [|discriminate].
+  apply select_seq_dec in Es. destruct Es as [z ->].
+  cbn [bind]. destruct (render_body (msg_tags m)) as [rest|e]; [|discriminate].
+  cbn [bind]. intros H.
+  apply (f_equal (fun r => match r with Ok (f, _) => f | Exc _ => [] end)) in H.
+  cbv beta iota zeta in H. rewrite <- H. clear H.
+  eexists z, rest, _, _. split; [reflexivity|]. split; [apply N.mod_lt; lia|].
+  rewrite !term_app. rewrite <- !join_term by discriminate.
+  unfold checksum. cbn [join]. rewrite <- !app_assoc. reflexivity.
+Qed.
+
+Lemma encode_fields_scan bs m sess t raw frame sess' :
+  encode bs m sess t raw = Ok (frame, sess') ->
+  inputs_fields_ok bs m sess t = true -> fields_scan AtStart frame = true.
+Proof.
+  intros He Hin. destruct (encode_fields _ _ _ _ _ _ _ He) as (z & rest & blen & ck & Er & Hck & ->).
+  unfold inputs_fields_ok in Hin. rewrite !andb_true_iff in Hin.
+  destruct Hin as [[[[[Hbs Hmt] Hsn] Htg] Ht] Hc].
+  apply scan_term. repeat apply Forall_app; repeat split.
+  - repeat (constructor; [apply field_fld_ok; auto using n_to_dec_soh_free; reflexivity|]). constructor.
+  - repeat (constructor; [apply field_fld_ok; auto using z_to_dec_soh_free; reflexivity|]). constructor.
+  - exact (render_body_all tag_okb soh_free (fun f => fld_okb f = true) field_fld_ok n_to_dec_soh_free
+             _ _ Er Hc).
+  - constructor; [|constructor]. apply field_fld_ok; [reflexivity|].
+    destruct (fmt03_spec _ Hck) as (d1 & d2 & d3 & E3 & D1 & D2 & D3 & _).
+    apply digits_soh_free. rewrite E3. cbn [forallb]. now rewrite D1, D2, D3.
+Qed.
+
+(* C02 with field structure: SOH-free single-byte inputs with proper tags give a frame that a
+   SOH-splitting FIX parser accepts as well *)
+Lemma encode_well_framed_fields bs m sess t raw frame sess' :
+  encode bs m sess t raw = Ok (frame, sess') ->
+  nonempty bs = true -> nonempty (msg_type m) = true ->
+  inputs_bytes bs m sess t = true -> inputs_fields_ok bs m sess t = true ->
+  exists w, wire frame = Some w /\ well_framed_fieldsb w = true.
+Proof.
+  intros He Hbs Hmt Hb Hf.
+  assert (Hsoh : soh_free bs = true /\ soh_free (msg_type m) = true).
+  { unfold inputs_fields_ok in Hf. rewrite !andb_true_iff in Hf. tauto. }
+  destruct Hsoh as [Hs1 Hs2].
+  assert (Hsp : starts_printable (msg_type m) = true).
+  { destruct (msg_type m) as [|c r]; [discriminate|]. cbn [soh_free forallb] in Hs2.
+    apply andb_true_iff in Hs2. cbn. tauto. }
+  destruct (encode_well_framed _ _ _ _ _ _ _ He Hbs Hs1 Hsp Hb) as (w & Hw & Hwf).
+  exists w. split; [exact Hw|]. unfold well_framed_fieldsb. rewrite Hwf. cbn [andb].
+  apply wire_some in Hw. destruct Hw as [-> _]. eapply encode_fields_scan; eauto.
+Qed.
+
+(* the hypothesis is necessary: a value containing SOH is encoded and breaks the field structure *)
+Lemma soh_in_value_breaks_fields :
+  exists frame sess', encode FIX44 ex_soh_value ex_sess ex_time false = Ok (frame, sess')
+    /\ inputs_bytes FIX44 ex_soh_value ex_sess ex_time = true
+    /\ inputs_fields_ok FIX44 ex_soh_value ex_sess ex_time = false
+    /\ well_framedb frame = true /\ well_framed_fieldsb frame = false.
+Proof.
+  destruct (encode FIX44 ex_soh_value ex_sess ex_time false) as [[frame sess']|] eqn:E;
+    [|vm_compute in E; discriminate].
+  exists frame, sess'. split; [reflexivity|]. vm_compute in E. inversion E.
+  repeat split; vm_compute; reflexivity.
+Qed.
+
+Lemma ex_nested_fields :
+  inputs_fields_ok FIX44 ex_nested ex_sess ex_time = true
+  /\ exists frame sess', encode FIX44 ex_nested ex_sess ex_time false = Ok (frame, sess')
+       /\ well_framed_fieldsb frame = true.
+Proof.
+  split; [vm_compute; reflexivity|].
+  destruct (encode FIX44 ex_nested ex_sess ex_time false) as [[frame sess']|] eqn:E;
+    [|vm_compute in E; discriminate].
+  exists frame, sess'. split; [reflexivity|]. vm_compute in E. inversion E. vm_compute. reflexivity.
+Qed.
